@@ -20,8 +20,10 @@
                                             whole-day window (`C13_validate_contains_wrapping`), data on the
                                             hour or whole-day window; grid + hour level for every header
                                             (`C13_validate_contains_partial`); the two excluded cases are the
-                                            recorded findings, with counterexample theorems.  Coarser
-                                            classes: compared + oracle only
+                                            recorded findings, with counterexample theorems.  Monthly
+                                            class: proved for non-wrapping headers
+                                            (`C13_validate_monthly_contains`); daily / monthly-per-hour
+                                            classes and wrapping monthly headers: compared + oracle only
     hole filling .......................... proved at full strength (`C13_holes`): length, source values on
                                             their own steps, leading/trailing copies, filled values between
                                             the neighbouring source values – for every whole-day period,
@@ -30,11 +32,22 @@
                                             means of averaged data: proved (`C13_interp_*`)
     culling ............................... proved (`C13_cull`)
     time aggregation / rate of change ..... factor inverse proved (`C13_rate_of_aggregated`)
+    histories on one object (round 3) ..... object machine Model/ResampleObj.lean (hourly classes, mutable and
+                                            immutable, with the lazily filled `_datetimes` slot): every answer
+                                            after every history is that of a fresh object showing the same
+                                            public state (`C13_history_refines_fresh`, `C13_history_slot_free`),
+                                            reads are pure (`C13_read_pure`), refused ops change nothing
+                                            (`C13_refused_preserves`), validation does not look at the validated
+                                            flag and returns the current pairs after any history
+                                            (`C13_validate_ignores_flag`, `C13_validate_after_history`), the in-place
+                                            cull keeps exactly the pairs on the grid (`C13_convert_cull_in_place`).
+                                            Daily / Monthly / MonthlyPerHour histories: oracle only
 -/
 import Ladybug.Proofs.C13Lemmas
 import Ladybug.Proofs.C13Contain
 import Ladybug.Proofs.C13Holes
 import Ladybug.Proofs.C13Interp
+import Ladybug.Proofs.C13Obj
 import Ladybug.Props.C04
 import Mathlib.Tactic.FieldSimp
 
@@ -866,5 +879,218 @@ theorem C13_rate_of_aggregated (factor ts v : Rat) (hf : factor ≠ 0) (ht : ts 
   unfold timeRate timeAggregated
   field_simp
 
+
+/-! ### Monthly validation: the output period contains every month (round 3 upgrade) -/
+
+/-- **Monthly validation, containment** (non-wrapping headers, annual included): for months in
+    1..12, every month of the validated collection lies between the start month and the end month of
+    the OUTPUT period (the header's months, widened to the smallest / largest month of the data).
+    Wrapping headers: compared + oracle only (the rotation / make-annual logic is the same as for the
+    hourly class, `C13_validate_hourly_rotated`). -/
+theorem C13_validate_monthly_contains {α : Type} (ap : AP) (data : List (Nat × α))
+    (v : Validated (Nat × α)) (h : validateMonthly ap data = .ok v) (hf : ap.isReversed = false)
+    (hm : ∀ p ∈ data, 1 ≤ p.1 ∧ p.1 ≤ 12) (hap : 1 ≤ ap.st_month ∧ ap.end_month ≤ 12) :
+    ∀ p ∈ v.data, v.ap.st_month ≤ p.1 ∧ p.1 ≤ v.ap.end_month := by
+  have hs := sortByKey_sorted (fun p : Nat × α => p.1) data
+  have hperm := sortByKey_perm (fun p : Nat × α => p.1) data
+  unfold validateMonthly at h
+  dsimp only at h
+  rw [hf, reorder_fwd] at h
+  simp only [reorder, Bool.false_and, Bool.false_eq_true, if_false] at h
+  split at h
+  next first last hfi hla =>
+    split at h
+    next => cases h
+    next hd =>
+      split at h
+      next => cases h
+      next nap hn =>
+        injection h with h
+        subst h
+        unfold liftAP at hn
+        split at hn
+        next a ha =>
+          injection hn with hn
+          subst hn
+          obtain ⟨-, -, hst, -, -, hen, -, -, -⟩ := AP.C04_mk_wf _ _ _ _ _ _ _ _ _ ha
+          intro p hp
+          show a.st_month ≤ p.1 ∧ p.1 ≤ a.end_month
+          have hp : p ∈ sortByKey (fun p : Nat × α => p.1) data := hp
+          have hpd : p ∈ data := hperm.mem_iff.mp hp
+          obtain ⟨hp1, hp12⟩ := hm p hpd
+          have hfirst : first.1 ≤ p.1 := head_le_of_sorted (fun p : Nat × α => p.1) _ hs first hfi p hp
+          have hlast : p.1 ≤ last.1 := by
+            have := le_getLast_of_sorted (fun p : Nat × α => p.1) (sortByKey (fun p : Nat × α => p.1) data) []
+              (by simpa using hs) last hla p hp
+            exact this
+          have hf1 : 1 ≤ first.1 := (hm first (hperm.mem_iff.mp (List.mem_of_mem_head? hfi))).1
+          have hl12 : last.1 ≤ 12 := (hm last (hperm.mem_iff.mp (List.mem_of_mem_getLast? hla))).2
+          simp only [AP.orD] at hst hen
+          by_cases hann : ap.isAnnual = true
+          · have h1 : ap.st_month = 1 ∧ ap.end_month = 12 := by
+              simp only [AP.isAnnual, Bool.and_eq_true, beq_iff_eq] at hann
+              exact ⟨hann.1.1.1.1.1, hann.1.1.2⟩
+            simp only [hann] at hst hen
+            simp at hst hen
+            constructor
+            · split_ifs at hst <;> omega
+            · split_ifs at hen <;> omega
+          · have hann' : ap.isAnnual = false := by simpa using hann
+            simp only [hann'] at hst hen
+            simp at hst hen
+            constructor
+            · split_ifs at hst <;> omega
+            · split_ifs at hen <;> omega
+        next => cases hn
+  next => cases h
+
+-- non-vacuity (evaluated: merge sort does not reduce in the kernel)
+#guard (validateMonthly ⟨3, 1, 0, 6, 30, 23, 1, false⟩ [(7, 1), (2, 2), (4, 3)]).toOption.map
+    (fun v => (v.ap.st_month, v.ap.end_month, v.data.map (·.1))) = some (2, 7, [2, 4, 7])
+
+/-! ### Histories on one object (round 3; machine: Model/ResampleObj.lean) -/
+
+/-- **After every history an object answers like a fresh one**: run any list of operations `h` on
+    one object `o` (reads, refused and successful in-place operations, derived collections adopted or
+    not).  Then every further operation gets the answer – and leaves the public state – that a FRESH
+    object showing the same public state (class, mutability, period, values, datetimes, flag) gets.
+    Nothing the history did, in particular whether and when the `datetimes` slot of a continuous
+    collection was filled, can be observed. -/
+theorem C13_history_refines_fresh (o : Obj) (h : List Op) (op : Op) :
+    (step (run o h).1 op).2 = (step (run o h).1.pub.fresh op).2 ∧
+    (step (run o h).1 op).1.pub = (step (run o h).1.pub.fresh op).1.pub :=
+  step_congr _ _ (pub_fresh _).symm op
+
+/-- **The whole history is that of the slot-free specification machine** `runPub`, whose state is
+    the public state alone: same answers step by step, same final public state. -/
+theorem C13_history_slot_free (o : Obj) (ops : List Op) :
+    (run o ops).2 = (runPub o.pub ops).2 ∧ (run o ops).1.pub = (runPub o.pub ops).1 :=
+  run_runPub ops o
+
+/-- **A refused operation leaves every observation unchanged**: when a step answers `refused e`
+    (the code raises), the stored object – slot included – is the one before the step. -/
+theorem C13_refused_preserves (o : Obj) (op : Op) (e : OErr) (h : (step o op).2 = .refused e) :
+    (step o op).1 = o ∧ (step o op).1.pub = o.pub := by
+  have := step_refused o op e h
+  exact ⟨this, by rw [this]⟩
+
+/-- **Reads are pure**: a read (of the values, the period, the flag, or of `datetimes`, which fills
+    the slot) answers `done`, leaves the public state as it is, and every history that follows gets
+    the same answers and ends in the same public state as without the read.  Hence reads commute
+    with each other and may be repeated. -/
+theorem C13_read_pure (o : Obj) (fill : Bool) (ops : List Op) :
+    (step o (.read fill)).2 = .done ∧ (step o (.read fill)).1.pub = o.pub ∧
+    (run (step o (.read fill)).1 ops).2 = (run o ops).2 ∧
+    (run (step o (.read fill)).1 ops).1.pub = (run o ops).1.pub := by
+  have hp : (step o (.read fill)).1.pub = o.pub := by cases fill <;> simp [step, fill_pub]
+  exact ⟨by simp [step], hp, (run_congr ops _ _ hp).1, (run_congr ops _ _ hp).2⟩
+
+/-- **Validation does not look at the validated flag**: a discontinuous collection is sorted and
+    its period repaired whatever the flag says (the flag may come from `cull_to_timestep`, from a
+    dictionary, from a copy – none of which sorts). -/
+theorem C13_validate_ignores_flag (p : Pub) (b : Bool) (hc : p.cont = false) :
+    validateP { p with validated := b } = validateP p := by
+  simp [validateP, hc, Pub.pairs, mkDisc]
+
+/-- **Validation after any history returns the pairs the object holds then**: whatever was done to
+    a discontinuous collection before, when `validate_analysis_period()` answers a collection `r`, its
+    (datetime, value) pairs are a permutation of the current pairs of the object, it is flagged as
+    validated, discontinuous and mutable.  (Order and containment of `r`: the `C13_validate_hourly_*`
+    theorems applied to the current pairs.) -/
+theorem C13_validate_after_history (o : Obj) (h : List Op) (adopt : Bool) (r : Pub)
+    (hc : (run o h).1.cont = false)
+    (hr : (step (run o h).1 (.validate adopt)).2 = .result r) :
+    r.pairs.Perm (run o h).1.pub.pairs ∧ r.validated = true ∧ r.cont = false ∧ r.imm = false ∧
+    ∃ v, validateHourly (run o h).1.ap (run o h).1.ap.leap (run o h).1.pub.pairs = .ok v ∧
+      r.pairs = v.data ∧ r.ap = v.ap := by
+  generalize (run o h).1 = c at hc hr
+  have hc' : c.pub.cont = false := hc
+  simp only [step, validateP, hc'] at hr
+  simp only [Bool.false_eq_true, if_false] at hr
+  split at hr
+  · simp [derive] at hr
+  · split at hr
+    · simp [derive] at hr
+    · next v hv =>
+      unfold mkDisc at hr
+      split at hr
+      · simp [derive] at hr
+      · split at hr
+        · simp [derive] at hr
+        · simp only [derive] at hr
+          injection hr with hr
+          subst hr
+          have hz : (Obj.pub ⟨false, false, v.ap, v.data.map (·.2), some (v.data.map (·.1)), true,
+              c.pub.nativeCum, c.pub.pit⟩).pairs = v.data := by
+            simp [Obj.pub, Obj.moys, Pub.pairs, zip_map_fst_snd]
+          refine ⟨?_, rfl, rfl, rfl, v, hv, hz, rfl⟩
+          rw [hz]
+          exact C13_validate_hourly_perm _ _ _ v hv
+
+/-- **The in-place cull keeps exactly the pairs on the coarser grid**: when
+    `convert_to_culled_timestep(ts)` is not refused, the object afterwards holds the pairs it held
+    whose minute of the year is a multiple of `60 / ts`, in order, under the old period with
+    timestep `ts`; class, mutability and flag are unchanged.  (When it is refused:
+    `C13_refused_preserves`.) -/
+theorem C13_convert_cull_in_place (o : Obj) (ts : Nat) (h : (step o (.convCull ts)).2 = .done) :
+    (step o (.convCull ts)).1.pub.pairs = o.pub.pairs.filter (fun q => q.1 % (60 / ts) = 0) ∧
+    (step o (.convCull ts)).1.ap.timestep = ts ∧ ts ∈ Gen.Ap.validTimesteps ∧
+    (step o (.convCull ts)).1.validated = o.validated ∧ (step o (.convCull ts)).1.cont = o.cont ∧
+    o.imm = false := by
+  simp only [step] at h ⊢
+  cases hcv : convCullP o.pub ts with
+  | error e => rw [hcv] at h; simp at h
+  | ok r =>
+    simp only []
+    unfold convCullP at hcv
+    split at hcv
+    · cases hcv
+    · next himm =>
+      split at hcv
+      · next hv =>
+        split at hcv
+        · cases hcv
+        · next nap hn =>
+          injection hcv with hcv
+          subst hcv
+          unfold liftAP at hn
+          split at hn
+          · next a ha =>
+            injection hn with hn
+            subst hn
+            have hwf := AP.C04_mk_wf _ _ _ _ _ _ _ _ _ ha
+            obtain ⟨-, -, -, -, -, -, -, hts', -⟩ := hwf
+            have hts0 : ts ≠ 0 := by
+              intro h0; subst h0; revert hv; decide
+            refine ⟨?_, ?_, hv, ?_, ?_, ?_⟩
+            · simp [Obj.pub, Obj.moys, Pub.pairs, zip_map_fst_snd]
+            · show a.timestep = ts
+              simp only [AP.orD] at hts'; split at hts' <;> omega
+            · trivial
+            · trivial
+            · simpa [Obj.pub] using himm
+          · cases hn
+      · cases hcv
+
+/-- Non-vacuity of `C13_validate_after_history` / `C13_refused_preserves`: an object and a history
+    for which the hypotheses hold (evaluated by `#guard`: merge sort does not reduce in the kernel). -/
+def exObj : Obj := ⟨false, false, ⟨6, 21, 0, 6, 21, 23, 1, false⟩, [3, 1, 2], some [247560, 246960, 248040],
+  false, false, true⟩
+
+-- "cull (sets the flag, does not sort) – validate – read" on unsorted data ends with the sorted pairs
+#guard (run exObj [.cull 1 true, .validate true, .read true]).1.pub.pairs = [(246960, 1), (247560, 3), (248040, 2)]
+#guard (run exObj [.cull 1 true]).1.validated = true ∧ (run exObj [.cull 1 true]).1.cont = false
+#guard (match (step (run exObj [.cull 1 true]).1 (.validate false)).2 with | .result r => r.validated | _ => false)
+-- a refused in-place cull and a refused assignment
+#guard (step exObj (.convCull 7)).2 = .refused .assert ∧ (step exObj (.setValues (some [1]))).2 = .refused .assert
+
+example (e : OErr) (h : (step exObj (.convCull 7)).2 = .refused e) : (step exObj (.convCull 7)).1 = exObj :=
+  (C13_refused_preserves exObj _ e h).1
+
+example :
+    let o : Obj := ⟨true, false, ⟨7, 14, 0, 7, 14, 23, 6, false⟩, (List.range 144).map (fun (k : Nat) => (k : Rat)), none,
+      true, false, true⟩
+    ((step o (.convCull 4)).1.pub.pairs.take 3) = [(194 * 1440, 0), (194 * 1440 + 30, 3), (194 * 1440 + 60, 6)] := by
+  decide +kernel
 
 end Resample
